@@ -10,7 +10,10 @@ props="$*"
 cd /repo && git apply "$p" || { echo "NOAPPLY $id"; exit 3; }
 trap 'cd /repo && git apply -R "$p"' EXIT INT TERM
 for c in $props; do
+  # the evidence file is rewritten by every run: keep the one of the unchanged tree
+  [ -f /verif/evidence/$c.json ] && cp /verif/evidence/$c.json /tmp/evidence.$c.$$.json
   out=$(/verif/bin/vcheck $c quick 2>&1); rc=$?
+  [ -f /tmp/evidence.$c.$$.json ] && mv /tmp/evidence.$c.$$.json /verif/evidence/$c.json
   echo "$id $c exit=$rc $(echo "$out" | grep -c '^VIOLATION') violation line(s)"
   echo "$out" | grep '^VIOLATION\|ENGINE-ERROR' | cut -c1-260 | head -${SEED_LINES:-6}
 done
